@@ -549,9 +549,22 @@ def queue_intervals(prog, hist, q):
             if o.id in start:
                 out.append((start[o.id], end.get(o.id, 1 << 60), call.get(o.id), ret.get(o.id), o, -1, o.kind in e3.BARRIER_KINDS))
         elif o.kind == "apply":
-            em = {i: p for p, i in ends.get(o.id, [])}
-            for p, i in starts.get(o.id, []):
-                out.append((p, em.get(i, 1 << 60), call.get(o.id), ret.get(o.id), o, i, False))
+            # a nested apply runs once per outer invocation: pair each START with the next END of the same index on the same thread
+            tid = hist.ev["tid"]
+            pend = {}
+            for p, i in sorted(ends.get(o.id, [])):
+                pend.setdefault((int(tid[p]), i), []).append(p)
+            single = len(starts.get(o.id, [])) <= max(1, o.c)
+            for p, i in sorted(starts.get(o.id, [])):
+                lst = pend.get((int(tid[p]), i), [])
+                e_ = 1 << 60
+                while lst:
+                    x = lst.pop(0)
+                    if x > p:
+                        e_ = x
+                        break
+                # call/ret stamps are only meaningful when the apply op executed once
+                out.append((p, e_, call.get(o.id) if single else None, ret.get(o.id) if single else None, o, i, False))
     return out
 
 
@@ -852,8 +865,19 @@ def once_verdicts(prog, hist):
     out = []
     bypred = {}
     for o in prog.order:
-        if o.kind == "once":
+        if o.kind in ("once", "oncestorm"):
             bypred.setdefault(o.a, []).append(o)
+    # storm callers: every one of them returns, and only after the initialiser finished
+    ev = hist.ev
+    for o in prog.order:
+        if o.kind == "oncestorm" and o.id in call:
+            rets = [int(i) for i in hist.of_kind(e3.EV["RET"]) if int(ev["op"][i]) == o.id]
+            inits = [x for x in bypred.get(o.a, []) if x.id in start]
+            e_ = end.get(inits[0].id) if inits else None
+            if rets and (e_ is None or min(rets) < e_):
+                out.append(Verdict("dispatch_once predicate %d: a storm caller returned (event %d) before the initialiser finished (event %s)" % (o.a, min(rets), e_), dict(kind="once-early-return")))
+            if hist.hdr["finished"] and len(rets) != o.c:
+                out.append(Verdict("dispatch_once predicate %d: only %d of %d storm callers returned" % (o.a, len(rets), o.c), dict(kind="once-waiter-left-behind")))
     for p, ops in bypred.items():
         ran = [o for o in ops if o.id in start]
         called = [o for o in ops if o.id in call]
